@@ -43,11 +43,6 @@ def trace (dims : List Nat) (ρ : Tensor R) : R := sumGrid dims fun i => ρ (i +
 /-- insert value `v` at position `p` -/
 def insertAt (l : List Nat) (p v : Nat) : List Nat := l.take p ++ v :: l.drop p
 
-/-- diagonal of the reduced state of the subsystem at position `p` : `P(outcome = o)` (unnormalised
-if `Tr ρ ≠ 1`) -/
-def prob (dims : List Nat) (p : Nat) (ρ : Tensor R) (o : Nat) : R :=
-  sumGrid (dims.eraseIdx p) fun κ => ρ (insertAt κ p o ++ insertAt κ p o)
-
 /-- `(Π_o ⊗ I) ρ (Π_o ⊗ I)` for the basis projector on outcome `o` of the subsystem at position `p` -/
 def projectOn (dims : List Nat) (p o : Nat) (ρ : Tensor R) : Tensor R := fun rc =>
   let n := dims.length
@@ -58,19 +53,23 @@ def removeAt (dims : List Nat) (p o : Nat) (ρ : Tensor R) : Tensor R := fun rc 
   let n := dims.length - 1
   ρ (insertAt (rc.take n) p o ++ insertAt (rc.drop n) p o)
 
-/-- scatter: the full index whose coordinates at positions `T` are `a` and the others `κ`
-(in ascending position order) -/
-def merge (n : Nat) (T : List Nat) (a κ : List Nat) : List Nat :=
-  let rest := (List.range n).filter fun p => decide (p ∉ T)
-  (List.range n).map fun p => if p ∈ T then a.getD (T.idxOf p) 0 else κ.getD (rest.idxOf p) 0
+/-- the full index whose coordinates at the positions `T` are `a` (in the order of `T`) and the
+others are read from the environment `e` -/
+def scatter (n : Nat) (T : List Nat) (a : List Nat) (e : Nat → Nat) : List Nat :=
+  (List.range n).map fun p => if p ∈ T then a.getD (T.idxOf p) 0 else e p
 
-/-- partial trace: the reduced state of the subsystems at positions `T`, axes in the order of `T` -/
+/-- partial trace: the reduced state of the subsystems at positions `T`, axes in the order of `T`;
+every other subsystem is summed over its diagonal -/
 def reduceTo (dims : List Nat) (T : List Nat) (ρ : Tensor R) : Tensor R := fun rc =>
   let n := dims.length
   let rest := (List.range n).filter fun p => decide (p ∉ T)
   let a := rc.take T.length
   let b := rc.drop T.length
-  sumGrid (rest.map fun p => dims.getD p 0) fun κ => ρ (merge n T a κ ++ merge n T b κ)
+  sumLabels (dimOf2 dims) rest (fun e => ρ (scatter n T a e ++ scatter n T b e)) (fun _ => 0)
+
+/-- **Born rule.** The probability of outcome `o` for the subsystem at position `p` is the diagonal
+element `o` of that subsystem's reduced density matrix (unnormalised if `Tr ρ ≠ 1`) -/
+def prob (dims : List Nat) (p : Nat) (ρ : Tensor R) (o : Nat) : R := reduceTo dims [p] ρ [o, o]
 
 /-- `ρ ⊗ |v⟩⟨v|` : a new subsystem appended as the last factor -/
 def tensorVec (dims : List Nat) (v : Tensor R) (ρ : Tensor R) : Tensor R := fun rc =>
@@ -108,5 +107,19 @@ def applyChecked (dims : List Nat) (T : List Nat) (O ρ : Tensor R) (isZero : Bo
 /-- a shrink request for the subsystem at position `p` is honoured only if nothing is cut off -/
 def resizeChecked (lossless : Bool) (ρ ρ' : Tensor R) : Outcome R :=
   if lossless then .ok ρ' else .rejected ρ
+
+end PW.Spec
+
+namespace PW.Spec
+variable {R : Type} [Add R] [Mul R] [Zero R] [One R] [Conj R]
+
+/-- `(O_T ⊗ I) ψ` for a state vector `ψ` (indexed by one coordinate per subsystem) -/
+def applyVec (dims : List Nat) (T : List Nat) (O ψ : Tensor R) : Tensor R := fun idx =>
+  let n := dims.length
+  sumLabels (dimOf2 dims) T (fun e =>
+      O (T.map (fun p => idx.getD p 0) ++ T.map e) * ψ (subst n T idx e)) (fun _ => 0)
+
+/-- the density matrix `|ψ⟩⟨ψ|` of a state vector on `n` subsystems -/
+def outer (n : Nat) (ψ : Tensor R) : Tensor R := fun rc => ψ (rc.take n) * conj (ψ (rc.drop n))
 
 end PW.Spec
